@@ -70,6 +70,14 @@ def shrink(prop, cfg, case, mode):
     return Case(case.kind, case.cid + "-min", body, case.meta)
 
 
+def audit_imports(prop):
+    """the Lean modules the audit of a property imports: they are the proof obligations that must build"""
+    path = os.path.join(V.LEAN, "PieModel", "Audit", f"{prop}.lean")
+    if not os.path.exists(path):
+        return []
+    return [l.split()[1] for l in open(path) if l.startswith("import ")]
+
+
 def audit_names(prop):
     """the obligations of a property: every theorem listed in PieModel/Audit/<prop>.lean"""
     path = os.path.join(V.LEAN, "PieModel", "Audit", f"{prop}.lean")
@@ -136,6 +144,7 @@ def main():
         print(f"VIOLATION property={prop} replay={path}" + (" no-failing-input-found" if no_input else ""), flush=True)
 
     # 1. proof obligations -------------------------------------------------------------------
+    cfg["lean_targets"] = sorted(set(cfg["lean_targets"]) | set(audit_imports(prop)))
     ok_build, log = V.build_lean(cfg["lean_targets"] + ["driver"])
     thms, audit_ok, audit_log = [], False, ""
     if ok_build:
